@@ -52,6 +52,13 @@ def micro(name):
         return {"seed": 0, "family": "micro_m2", "nlps": 3, "K": 2, "T": 2, "P": 1, "split": 3, "need": [99] * 3, "cap": [99] * 3, "endmask": [1, 1],
                 "payloads": pay, "init": [[snd(0, 1, 2)], [], [snd(0, 2, 1), snd(0, 4, 1)]],
                 "trans": [[tr(1, [snd(2, 1, 1)]), tr(0, [snd(2, 0, 1)])], [tr(1, []), tr(1, [])]]}
+    if name == "m3":   # spec/TimeWarpMC_m3.tla: straggler against a history entry cancelled in place
+        def snd3(off, delay, ty):
+            return {"drule": off, "drule2": off, "delay": delay, "ty": ty, "pid": 0}
+        return {"seed": 0, "family": "micro_m3", "nlps": 3, "K": 2, "T": 5, "P": 1, "split": 3, "need": [99] * 3, "cap": [99] * 3, "endmask": [1, 1],
+                "payloads": pay, "init": [[snd3(0, 4, 2)], [], [snd3(0, 2, 4)]],
+                "trans": [[tr(0, []), tr(0, [snd3(1, 1, 1)]), tr(0, []), tr(0, [snd3(1, 1, 5), snd3(2, 3, 3)]), tr(1, [])],
+                          [tr(1, []), tr(1, []), tr(1, []), tr(1, []), tr(1, [])]]}
     if name == "d1":   # spec/TimeWarpMC_d1.tla: the LPs of m1 on two ranks
         return dict(micro("m1"), family="micro_d1")
     if name == "d2":   # spec/TimeWarpMC_d2.tla: 3 LPs over 2 ranks (rank 0: LP0, LP1 on two threads; rank 1: LP2)
